@@ -9,6 +9,7 @@ mod run;
 mod sqlsim;
 mod stmt;
 mod sup;
+mod threadsim;
 mod triggers;
 mod util;
 mod walsim;
